@@ -484,6 +484,11 @@ func (r *Run) fail(viol []*Failure, noEvidence bool, cov map[string]interface{})
 		if (viol[i].Obl != nil) != (viol[j].Obl != nil) {
 			return viol[i].Obl != nil
 		}
+		// then functions the engine could not take (their reason is what the reader needs), then the rest
+		ri, rj := strings.HasSuffix(viol[i].Name, "#rejected"), strings.HasSuffix(viol[j].Name, "#rejected")
+		if ri != rj {
+			return ri
+		}
 		return viol[i].Name < viol[j].Name
 	})
 	const maxReported = 25
